@@ -19,8 +19,9 @@ def run(ctx):
     for k, c in enumerate(cases):
         if (c["fault"] and not c["dask"] and k % 3) or not not_zip_case(c):
             continue
+        # every third observation is run twice on the same objects (a session: Rerun)
         jobs.append(dict(ocfg=c, variant=k, scheduler=("synchronous", "threads")[k % 2] if c["dask"] else None,
-                         workers=2 if c["dask"] and k % 2 else None))
+                         workers=2 if c["dask"] and k % 2 else None, repeat=2 if k % 3 == 0 else 1))
     traces = O.record(jobs)
     ctx.cov["replayed_cases"] += len(traces)
     ctx.sample({"ocfg": traces[2]["ocfg"], "events": [e for e in traces[2]["events"] if e["e"] in ("run", "user_after")][:4]})
